@@ -400,7 +400,8 @@ func init() {
 				J(".", "VX_C07_DialHooks", 0), J(".", "VX_C07_DialHooks", 1), J(".", "VX_C07_DialHooks", 2), J(".", "VX_C07_DialHooks", 0, 1), J(".", "VX_C07_DialHooks", 1, 1), J(".", "VX_C07_DialHooks", 2, 1), J(".", "VX_C07_CloseWaitsThenLoss", 0)}
 			js = append(js, historyJobs(tier, false)...)
 			js = append(js, J(".", "VX_C07_NoHandlerAfterClose", 0), J(".", "VX_C07_NoHandlerAfterClose", 1),
-				J(".", "VX_C07_HandlerAwaitsCloseNotify", 0), J(".", "VX_C07_HandlerAwaitsCloseNotify", 1))
+				J(".", "VX_C07_HandlerAwaitsCloseNotify", 0), J(".", "VX_C07_HandlerAwaitsCloseNotify", 1),
+				J(".", "VX_C07_LostWhileEstablishing", 0, 1), J(".", "VX_C07_LostWhileEstablishing", 1, 1), J(".", "VX_C07_LostWhileEstablishing", 0, 2))
 			if tier == "thorough" {
 				js = append(js, J(".", "VX_C07_History", 5), J(".", "VX_C07_History", 4, 1))
 			}
